@@ -55,10 +55,24 @@ def rule_exits(ctx, repo):
             ctx.check(ok, "C17.exit", "PFlow.run/return@%s" % src(v), "unsuccessful return passes an exit_code assignment",
                       "PFlow.run can return %s without raising exit_code: %s" % (src(v), f.g.fmt_path(p or [])), f.W(r))
         else:
-            ok = src(v) == "self.converged" and f.g.must_pass(f.g.entry, r, [n for n in inc if Q.match(
-                "$s.exit_code = 0 if self.converged else 1", f.g.data(n)["ast"])])[0]
-            ctx.check(ok, "C17.exit", "PFlow.run/return@%s" % src(v), "returns the verdict; exit_code = 0 iff converged",
-                      "PFlow.run's final return is not tied to `exit_code = 0 if self.converged else 1`", f.W(r))
+            # the exit code is raised iff not converged: `exit_code (+)= 0 if self.converged else k`, or `exit_code += k` under `not converged`
+            tied = []
+            for n in f.g.nodes():
+                a = f.g.data(n)["ast"]
+                if f.g.data(n)["kind"] != "stmt" or not isinstance(a, (ast.Assign, ast.AugAssign)):
+                    continue
+                tg = a.targets[0] if isinstance(a, ast.Assign) else a.target
+                if not (dotted(tg) or "").endswith("exit_code"):
+                    continue
+                val = a.value
+                if isinstance(val, ast.IfExp) and Q.match("self.converged", val.test) is not None and src(val.body) == "0" and src(val.orelse) not in ("0",):
+                    tied.append(n)
+                elif any(Q.match("not self.converged", f.g.data(t_)["ast"].test) is not None and f.g.guarded_by(n, t_, "true")
+                         for t_ in f.g.nodes() if f.g.data(t_)["kind"] == "test"):
+                    tied.append(n)
+            ok = src(v) == "self.converged" and bool(tied) and f.g.must_pass(f.g.entry, r, tied)[0]
+            ctx.check(ok, "C17.exit", "PFlow.run/return@%s" % src(v), "returns the verdict; the exit code is raised iff not converged",
+                      "PFlow.run's final return is not tied to an exit-code update that depends on `self.converged`", f.W(r))
 
     # ---- TDS.run: paths to a return that do not set succeed=True must raise exit_code
     f = F.method(repo, "TDS", "run", TDS)
@@ -191,6 +205,29 @@ def rule_exits(ctx, repo):
                                     if f.g.data(n)["kind"] == "stmt" and Q.match("self.is_setup = True", f.g.data(n)["ast"]))
         ctx.check(ok, "C17.success", "System.setup/is_setup", "is_setup only when no error occurred",
                   "is_setup can be set although a step failed", f.W())
+
+
+def rule_exit_monotone(ctx, repo):
+    """The exit code is a failure counter: routines add to it (`exit_code += 1`).  A plain assignment erases failures recorded
+    earlier in the same process (a failed set-up followed by a converged power flow would exit 0).  Sibling rule over every writer."""
+    n = 0
+    for rel, tree in repo.modules.items():
+        if not rel.startswith("andes/") or rel.startswith("andes/cli"):
+            continue
+        for fn in [x for x in ast.walk(tree) if isinstance(x, (ast.FunctionDef, ast.AsyncFunctionDef))]:
+            if fn.name == "__init__":
+                continue
+            for st in walk_noscope(fn):
+                if isinstance(st, ast.Assign) and any((dotted(t) or "").endswith(".exit_code") for t in st.targets):
+                    n += 1
+                    ctx.violation("C17.exit", "%s::%s/exit_code-assign@%s" % (rel.split("/")[-1], fn.name, " ".join(src(st).split())[:40]),
+                                  "`%s` overwrites the exit code instead of adding to it: a failure recorded earlier (failed set-up, failed "
+                                  "initialisation) is erased when this routine succeeds" % src(st), "%s:%d" % (rel, st.lineno))
+                elif isinstance(st, ast.AugAssign) and (dotted(st.target) or "").endswith(".exit_code"):
+                    n += 1
+                    ctx.check(isinstance(st.op, ast.Add), "C17.exit", "%s::%s/exit_code@%d" % (rel.split("/")[-1], fn.name, st.lineno),
+                              "adds to the exit code", "exit code is modified by `%s`" % src(st), "%s:%d" % (rel, st.lineno))
+    ctx.count("exit_code_writers", n)
 
 
 def rule_main(ctx, repo):
@@ -440,6 +477,7 @@ def run(ctx):
     rule_flag_reset(ctx, repo)
     rule_newton_exits(ctx, repo)
     rule_nan_measure(ctx, repo)
+    rule_exit_monotone(ctx, repo)
     # sentinel propagation: reuse the C16 sibling rules under this property's name
     before = len(ctx.results)
     c16.rule_suitesparse(ctx, repo)
